@@ -128,6 +128,24 @@ func (vc *VC) atReturn(fr *frame, r *retInfo) {
 			o.RetSt, o.RetVals = r.st, rts
 		}
 	}
+	if len(con.Internal) > 0 {
+		// internal postconditions may name locals of the function (their values at this return)
+		ienv := vc.contractEnv(con, vc.params, rts, r.st, vc.entry)
+		ienv.proving = true
+		pos := r.pos
+		ienv.local = func(nm string, s *State) *SVal { return fr.resolveLocal(nm, pos, s) }
+		for i, en := range con.Internal {
+			t, err := ienv.trBool(en.E)
+			if err != nil {
+				vc.specError(con, en, err)
+				continue
+			}
+			if o := vc.oblige("post", r.st, t, r.pos, fmt.Sprintf("internal postcondition %d (%s:%d): %s", i, en.File, en.Line, en.Src)); o != nil {
+				o.Name = fmt.Sprintf("%s#internal.%d@ret%d", vc.funcName(), i, vc.retIndex(fr, r))
+				o.RetSt, o.RetVals = r.st, rts
+			}
+		}
+	}
 	if con.ModGiven {
 		vc.frameObligations(fr, r, env)
 	}
@@ -184,11 +202,20 @@ func (vc *VC) modifiesPlaces() *framePlaces {
 				s := oldEnv.materialize(oldEnv.tr(m.X), nil)
 				sl := s.Go.Underlying().(*types.Slice)
 				key, _ := vc.elemKey(sl.Elem())
-				fp.elems[key] = append(fp.elems[key], elemPlace{vc.slArr(s.T), vc.slOff(s.T), vc.iAdd(vc.slOff(s.T), vc.slLen(s.T))})
+				fp.elems[key] = append(fp.elems[key], elemPlace{vc.slArr(s.T), vc.slOff(s.T), vc.iAdd(vc.slOff(s.T), vc.modExtent(s.T, m))})
 			}
 		}()
 	}
 	return fp
+}
+
+// modExtent: s[*] names the elements inside the slice's length; s[cap] names its whole capacity window
+// (what an append to s may write in place).
+func (vc *VC) modExtent(s *Term, m *SExpr) *Term {
+	if m.Y != nil && m.Y.K == EIdent && m.Y.Op == "cap" {
+		return vc.slCap(s)
+	}
+	return vc.slLen(s)
 }
 
 // frameFormula: heap component k agrees with its entry value at (ref[, j]) unless the place is in the modifies clause.
@@ -313,6 +340,24 @@ func (vc *VC) lemmaInstance(lem *Contract, env *SEnv, args []*SExpr) (t *Term, e
 			return nil, e
 		}
 		pre = append(pre, x)
+	}
+	// a lemma proved by cases is stated for the enumerated ranges only
+	if strings.HasPrefix(lem.Proof, "cases") {
+		for _, part := range strings.Split(strings.TrimPrefix(lem.Proof, "cases"), ",") {
+			f := strings.Fields(part)
+			if len(f) != 3 {
+				continue
+			}
+			var lo, hi int64
+			fmt.Sscanf(f[1], "%d", &lo)
+			fmt.Sscanf(f[2], "%d", &hi)
+			v := le.vars[f[0]]
+			if v == nil || v.Go == nil {
+				return nil, fmt.Errorf("lemma %s: case variable %s is not a parameter", lem.Name, f[0])
+			}
+			x := le.materialize(v, v.Go)
+			pre = append(pre, vc.iCmp("<=", vc.intConst(big.NewInt(lo), v.Go), x.T, true), vc.iCmp("<=", x.T, vc.intConst(big.NewInt(hi), v.Go), true))
+		}
 	}
 	for _, en := range lem.Ensures {
 		x, e := le.trBool(en.E)
